@@ -69,7 +69,11 @@ def step (_ : Unit) (line : String) : Unit × String :=
         let q := rawQuery target
         let m := searchParams q
         let v := if m == specMap (formParse q) then "ok" else "fail not-once"
-        s!"ok {showMap m} ## {v}"
+        -- `query_signal::<String>("q")`: `ParamsMap::get` = the last value stored under the key, unchanged
+        let qv := match (m.find? (·.1 == [113])).bind (·.2.getLast?) with
+          | some x => hexOfBytes x
+          | none => "none"
+        s!"ok {showMap m} q={qv} ## {v}"
       | none => "bad-op"
     | ["roundtrip", ms] =>
       match parseMap ms with
